@@ -634,6 +634,8 @@ function runQuery(env, q) {
       // values x option sets -> matrix of results (true/false/"T" for throw)
       const p = getParser(env, q);
       const res = [];
+      const identity = [];
+      const sameObject = q.sameObject === true;
       for (const tv of q.values) {
         const row = [];
         for (const o of q.optsList) {
@@ -645,8 +647,20 @@ function runQuery(env, q) {
           }
         }
         res.push(row);
+        // the same object (identity, not a copy) validated under each option set in turn, in both orders: the answer
+        // is a function of the value and the options, whatever was asked about that object before
+        if (!sameObject) continue;
+        for (const order of [q.optsList.map((_, i) => i), q.optsList.map((_, i) => q.optsList.length - 1 - i)]) {
+          const shared = revive(tv);
+          for (const i of order) {
+            let r;
+            try { r = p.validate(shared, optsOf(q.optsList[i])) === true ? 1 : 0; } catch (e) { r = "T"; }
+            const fresh = typeof row[i] === "number" ? row[i] : "T";
+            if (r !== fresh) identity.push({ value: res.length - 1, opts: i, order, fresh, sameObject: r });
+          }
+        }
       }
-      return { m: res };
+      return { m: res, identity };
     }
     case "trio": {
       // C03: validate / safeParse / parse relations, evaluated here where object identity is visible
